@@ -15,7 +15,7 @@ SPEC = {
     'search_args': ['-trans', 30000, '-model', 1500],
     'eval_timeout': {'quick': 600, 'thorough': 2400},
     'assumptions': [
-        'C15_same_generic_partial is stated over the C01 driver interface (wire_ok of the composite driver); for G = F the side condition keeps is PROVED for the concrete driver records of C01 (C15/Concrete.v: C15_keeps_{simple,msgpack,binc,cbor_rfc3339}, C15_keeps_cbor_partial) and C15_same_{simple,msgpack,binc,cbor_rfc3339} / C15_same_cbor_partial carry no driver hypothesis; the driver records themselves are the C01 compositions (typed reads rd_* as functions of the item; byte-level agreement per leaf read: C01_*_typed_reads); cross-format pairs (G != F) stay over the interface; on the implementation the three-step transcoding is run directly (trans stream, all five formats, cross-format where keeps holds)',
+        'C15_same_generic_partial is stated over the C01 driver interface (wire_ok of the composite driver); for G = F the side condition keeps is PROVED for the concrete driver records of C01 (C15/Concrete.v: C15_keeps_{simple,msgpack,binc,cbor_rfc3339}, C15_keeps_cbor_partial) and C15_same_{simple,msgpack,binc,cbor_rfc3339} / C15_same_cbor_partial carry no driver hypothesis; the driver records themselves are the C01 compositions (typed reads rd_* as functions of the item; byte-level agreement per leaf read: C01_*_typed_reads); cross-format: C15_cross / C15_cross_keeps (C15/Cross.v) prove the side condition for every ordered pair of the five binary driver records (simple, msgpack, binc, cbor tag-1, cbor TimeRFC3339) under the decidable leaf premise cross_leaf (F\'s premise, G\'s premise on what the tree holds, a time is a time in the tree: msgpack without WriteExt is not a source of non-zero times); pairs involving json stay over the interface; on the implementation the three-step transcoding is run directly (trans stream, all five formats, cross-format where keeps holds)',
         'the tree is compared as an item: MapType / SliceType / PreferArrayOverSlice change only the Go container types, which the item dump does not distinguish; MapType = map[string]interface{} is modelled as a decode error on a non-string key',
         'json is covered by the direct oracle only (no json instance of naked_tree); json float32 numbers are compared after rounding the tree number to float32 (json names a float32 by its shortest decimal)',
     ],
@@ -29,5 +29,5 @@ MANIFEST = {
     'category': 'proof',
     'technique': 'Coq proof (the C01 generic round trip applied to a composite driver; per-format leaf lemmas on the wire norm functions) + vm_compute correspondence of the schema-less tree against the wire models + direct three-step transcoding oracle on the implementation (five formats, cross-format, math/big number comparison)',
     'text': 'C15_reencode_is_tree: Encode(tree) asks the driver for exactly the tree. C15_same_{simple,msgpack,binc,cbor_rfc3339}, C15_same_cbor_partial: same-format transcoding through the concrete driver records, no hypothesis on the drivers: the tree has no RawExt node, Encode(tree) asks for exactly the tree, and the typed decode of the second pass gives the value up to the format\'s documented losses applied once (the wire normalisations are idempotent on supported leaves). C15_same_generic_partial: for every pair of drivers meeting the stated side condition keeps (the C01 driver interface for the composite F-tree-G), every supported type and well-typed value, any options and map order, decoding the re-encoded tree into the static type gives the value up to the documented losses (G = F and G != F); satisfiable instances proved. C15_nums_total_*: in cbor, msgpack, simple and binc an integer leaf either comes back as the same integer or (SignedInteger with an unsigned value >= 2^63) the schema-less decode of its encoding is the overflow error - never another number (F07-1n repaired); strings keep their bytes; floats are float64. The tree the real decoder builds equals the wire model\'s on every harness case (four binary formats).',
-    'note': 'Same-format transcoding is composed with the concrete driver records of simple, msgpack, binc (full) and cbor (TimeRFC3339: full; tag-1 times outside, as C01): C15_same_<fmt>, with the first pass tied to the wire models\' bytes (C15_tree_<fmt>); stated exclusion: simple with EncZeroValuesAsNil + RawToString loses an empty non-nil []byte (C15_simple_empty_bytes_lost). Partial: cross-format pairs stay over the interface hypothesis keeps; json has no model instance. Known finding F15-1 (json integral floats >= 2^52 written as integer literals: tree number differs / negative literal in (-2^64,-2^63) refused).',
+    'note': 'Same-format transcoding is composed with the concrete driver records of simple, msgpack, binc (full) and cbor (TimeRFC3339: full; tag-1 times outside, as C01): C15_same_<fmt>, with the first pass tied to the wire models\' bytes (C15_tree_<fmt>); stated exclusion: simple with EncZeroValuesAsNil + RawToString loses an empty non-nil []byte (C15_simple_empty_bytes_lost). Cross-format: C15_cross for all 25 ordered pairs of the binary driver records under the stated leaf premise (losses of F then G). Partial: pairs involving json stay over the interface hypothesis keeps; json has no model instance. Known finding F15-1 (json integral floats >= 2^52 written as integer literals: tree number differs / negative literal in (-2^64,-2^63) refused).',
 }
